@@ -55,11 +55,12 @@ func mkParam(pname string, tname string, class int, t ddptypes.Type, ref bool) *
 // The type zoo. K1 and K2 are two different Kombinationen that are both called "K" (as declared by two
 // modules), KDef is a type definition called "K".
 var (
-	tAlias = &ddptypes.TypeAlias{Name: "Hausnummer", Underlying: ddptypes.ZAHL, GramGender: ddptypes.FEMININ}
-	tDef   = &ddptypes.TypeDef{Name: "Nummer", Underlying: ddptypes.ZAHL, GramGender: ddptypes.FEMININ}
-	tK1    = &ddptypes.StructType{Name: "K", GramGender: ddptypes.FEMININ, Fields: []ddptypes.StructField{{Name: "x", Type: ddptypes.ZAHL}}}
-	tK2    = &ddptypes.StructType{Name: "K", GramGender: ddptypes.FEMININ, Fields: []ddptypes.StructField{{Name: "y", Type: ddptypes.TEXT}}}
-	tKDef  = &ddptypes.TypeDef{Name: "K", Underlying: ddptypes.ZAHL, GramGender: ddptypes.FEMININ}
+	tAlias  = &ddptypes.TypeAlias{Name: "Hausnummer", Underlying: ddptypes.ZAHL, GramGender: ddptypes.FEMININ}
+	tLAlias = &ddptypes.TypeAlias{Name: "Zahlenreihe", Underlying: ddptypes.ListType{ElementType: ddptypes.ZAHL}, GramGender: ddptypes.FEMININ}
+	tDef    = &ddptypes.TypeDef{Name: "Nummer", Underlying: ddptypes.ZAHL, GramGender: ddptypes.FEMININ}
+	tK1     = &ddptypes.StructType{Name: "K", GramGender: ddptypes.FEMININ, Fields: []ddptypes.StructField{{Name: "x", Type: ddptypes.ZAHL}}}
+	tK2     = &ddptypes.StructType{Name: "K", GramGender: ddptypes.FEMININ, Fields: []ddptypes.StructField{{Name: "y", Type: ddptypes.TEXT}}}
+	tKDef   = &ddptypes.TypeDef{Name: "K", Underlying: ddptypes.ZAHL, GramGender: ddptypes.FEMININ}
 )
 
 func list(t ddptypes.Type) ddptypes.Type { return ddptypes.ListType{ElementType: t} }
@@ -82,6 +83,7 @@ func zoo() map[string]*VTok {
 	add("TextL", mkParam("a", "Text Liste", 5, list(ddptypes.TEXT), false))
 	add("Alias", mkParam("a", "alias(Hausnummer=Zahl)", 1, tAlias, false))
 	add("AliasL", mkParam("a", "alias(Hausnummer=Zahl) Liste", 4, list(tAlias), false))
+	add("LAlias", mkParam("a", "alias(Zahlenreihe=Zahlen Liste)", 4, tLAlias, false)) // a named alias OF a list type
 	add("Def", mkParam("a", "typedef(Nummer:Zahl)", 6, tDef, false))
 	add("DefL", mkParam("a", "typedef(Nummer:Zahl) Liste", 7, list(tDef), false))
 	add("K1", mkParam("a", "K#1", 8, tK1, false))
@@ -97,7 +99,7 @@ func zoo() map[string]*VTok {
 }
 
 var vocabularies = map[string][]string{
-	"full": {"foo", "bar", "1", "+", "der", "Zahl", "bZahl", "ZahlRef", "Text", "Buchstabe", "ZahlL", "TextL", "Alias", "AliasL", "Def", "DefL",
+	"full": {"foo", "bar", "1", "+", "der", "Zahl", "bZahl", "ZahlRef", "Text", "Buchstabe", "ZahlL", "TextL", "Alias", "AliasL", "LAlias", "Def", "DefL",
 		"K1", "K2", "KDef", "K1L", "K2L", "KDefL", "K1Ref", "K2Ref", "Var"},
 	"R4":  {"foo", "Zahl", "K1", "K2"},
 	"R5":  {"foo", "Zahl", "K1", "K2", "K1L"},
